@@ -168,7 +168,8 @@ def specList2 : List (String × SpecFn) := [
       if r.getD 1 "" != "nil" then some (some "error returned") else
       match bidDecode b with
       | none => some (some s!"not 16 bytes: {b.size}")
-      | some v => some (if v.same x then none else some s!"BID decoder reads {showVal v}, library value {showVal x}")),
+      | some v => some (if v == x then none else some s!"BID decoder reads {showVal v}, library value {showVal x} (sign, coefficient, exponent / payload must agree exactly)")),
+  ("api.BinRoundTrip", fun _ a r => some (expectTok s!"{r.getD 0 ""} {r.getD 1 ""}" s!"{a.getD 0 ""} nil")),
   ("Decimal.UnmarshalBinary", fun _ a r => do
       let b ← Codec.decBytes (a.getD 1 "")
       if b.size == 16 then
